@@ -121,8 +121,22 @@ def free_names(modname, qualname):
     import ast
     import builtins
     node = frontend.module(modname).find(qualname)
+    if isinstance(node, ast.ClassDef):
+        # a class: the free names of its methods (class-level names are visible through self / the class)
+        out = set()
+        own = {m.name for m in node.body if isinstance(m, ast.FunctionDef)} | {node.name}
+        for m in node.body:
+            if isinstance(m, ast.FunctionDef):
+                out |= _free_of(m)
+        return out - own
     if not isinstance(node, ast.FunctionDef):
         return set()
+    return _free_of(node)
+
+
+def _free_of(node):
+    import ast
+    import builtins
     params = {a.arg for a in node.args.args + node.args.kwonlyargs + node.args.posonlyargs}
     if node.args.vararg:
         params.add(node.args.vararg.arg)
